@@ -45,3 +45,9 @@ pub use crate::relayer::{ReconstructionResult, verif_compact_block_verify};
 
 #[cfg(feature = "verif-hooks")]
 pub use crate::relayer::{verif_block_transactions_verify, verif_block_uncles_verify};
+
+#[cfg(feature = "verif-hooks")]
+pub use crate::synchronizer::VerifBlockFetcher;
+
+#[cfg(feature = "verif-hooks")]
+pub use crate::types::IBDState;
